@@ -35,6 +35,12 @@ def gen_cases(tier, seed):
         if k % 60 == 13:
             # long histories (one simulation of a few thousand events keeps a single candidate list alive for that long)
             out[-1].update({'nops': r.choice([5000, 9000, 20000]), 'size': r.choice([8, 20, 60]), 'pattern': r.choice(['random', 'heaviest_churn', 'replace_heavy', 'zero_mix'])})
+    # size-gated bookkeeping: a few histories with more than 1e5 weight updates on one sampler
+    for j in range(6 if tier == 'quick' else 16):
+        cs = case_seed(seed, PID + 'verylong', j)
+        r = random.Random(cs)
+        out.append({'pattern': r.choice(['random', 'heaviest_churn', 'replace_heavy']), 'family': r.choice(['dyadic', 'nondyadic', 'mixedint']), 'weighted': True,
+                    'size': r.choice([8, 20]), 'nops': 230000, 'seed': cs})
     return out
 
 
